@@ -479,6 +479,16 @@ func (fc *FuncCtx) formula0(v ssa.Value) *bddNode {
 			return B.Not(fc.Formula(x.X))
 		}
 		if x.Op == token.MUL {
+			// a bool field of a helper's result struct: case split over the helper's returns
+			if _, idx, ok := callComponent(x); ok && idx < 0 {
+				if f, ok := fc.callResultGated(x, func(sub *FuncCtx, rv ssa.Value) *bddNode { return sub.Formula(rv) }); ok {
+					return f
+				}
+			}
+			// a flag kept in a field of a local struct that is assigned once
+			if sv := fieldSingleStore(x); sv != nil {
+				return fc.Formula(sv)
+			}
 			// a flag kept in a local that is assigned once (address taken, or captured by a closure)
 			if al, ok := x.X.(*ssa.Alloc); ok {
 				if sv := fc.singleStore(al, x); sv != nil {
@@ -1080,7 +1090,7 @@ func (fc *FuncCtx) nonNil0(v ssa.Value) *bddNode {
 			if sc := call.Call.StaticCallee(); sc != nil && len(sc.Blocks) > 0 {
 				okAll := true
 				for _, rt := range returnsOf(sc) {
-					if retComponent(rt, idx) == nil {
+					if len(retAlts(rt, idx)) == 0 {
 						okAll = false
 					}
 				}
@@ -1161,7 +1171,7 @@ func (fc *FuncCtx) nonNil0(v ssa.Value) *bddNode {
 					sub0 := sc
 					okAll := len(sub0.Blocks) > 0
 					for _, rt := range returnsOf(sub0) {
-						if retComponent(rt, idx) == nil {
+						if len(retAlts(rt, idx)) == 0 {
 							okAll = false
 						}
 					}
@@ -1521,12 +1531,14 @@ func (fc *FuncCtx) callResultGated(v ssa.Value, f func(sub *FuncCtx, rv ssa.Valu
 	acc := B.False
 	n := 0
 	for _, ret := range sub.Returns() {
-		rv := retComponent(ret, idx)
-		if rv == nil {
+		alts := retAlts(ret, idx)
+		if len(alts) == 0 {
 			return nil, false
 		}
 		n++
-		acc = B.Or(acc, B.And(sub.Cond(ret.Block()), f(sub, rv)))
+		for _, alt := range alts {
+			acc = B.Or(acc, B.And(B.And(sub.Cond(ret.Block()), sub.altCond(alt)), f(sub, alt.v)))
+		}
 	}
 	return acc, n > 0
 }
@@ -1580,24 +1592,31 @@ func (fc *FuncCtx) ResultFormula(idx int, f func(ssa.Value) *bddNode) *bddNode {
 	B := fc.A.B
 	acc := B.False
 	for _, r := range fc.Returns() {
-		rv := retComponent(r, idx)
-		if rv == nil {
-			continue
+		for _, alt := range retAlts(r, idx) {
+			acc = B.Or(acc, B.And(B.And(fc.Cond(r.Block()), fc.altCond(alt)), f(alt.v)))
 		}
-		acc = B.Or(acc, B.And(fc.Cond(r.Block()), f(rv)))
 	}
 	return acc
 }
 
-// retComponent: component idx of what the Return hands back: result idx of the tuple for idx >= 0; for idx < 0 the field
-// -idx-1 of the single struct result (a literal, or a local assigned field by field; a field that is never assigned is
-// the zero value). nil when it cannot be told.
-func retComponent(r *ssa.Return, idx int) ssa.Value {
+// retAlt: one alternative of a component of a Return: the value, and (for a field of a result struct that is assigned
+// in a branch) the block whose execution selects it (neg: whose non-execution selects it).
+type retAlt struct {
+	v     ssa.Value
+	under *ssa.BasicBlock
+	neg   bool
+}
+
+// retAlts: component idx of what the Return hands back: result idx of the tuple for idx >= 0; for idx < 0 the field
+// -idx-1 of the single struct result (a literal, or a local / named result assigned field by field). A field that is
+// never assigned is the zero value; a field assigned once in a branch is that value when the branch ran and the zero
+// value otherwise. nil when it cannot be told.
+func retAlts(r *ssa.Return, idx int) []retAlt {
 	if idx >= 0 {
 		if idx >= len(r.Results) {
 			return nil
 		}
-		return r.Results[idx]
+		return []retAlt{{v: r.Results[idx]}}
 	}
 	if len(r.Results) != 1 {
 		return nil
@@ -1615,7 +1634,7 @@ func retComponent(r *ssa.Return, idx int) ssa.Value {
 	if !ok || k >= st.NumFields() {
 		return nil
 	}
-	var val ssa.Value
+	var store *ssa.Store
 	n := 0
 	for _, rf := range *al.Referrers() {
 		switch u := rf.(type) {
@@ -1625,28 +1644,62 @@ func retComponent(r *ssa.Return, idx int) ssa.Value {
 			}
 			for _, r2 := range *u.Referrers() {
 				if s, ok := r2.(*ssa.Store); ok && s.Addr == ssa.Value(u) {
-					if !(s.Block() == r.Block() || s.Block().Dominates(r.Block())) {
-						return nil
-					}
-					val = s.Val
+					store = s
 					n++
 				} else if _, isLoad := r2.(*ssa.UnOp); !isLoad {
-					return nil // address escapes
+					if _, isDbg := r2.(*ssa.DebugRef); !isDbg {
+						return nil // address escapes
+					}
 				}
 			}
 		case *ssa.Store:
 			if u.Addr == ssa.Value(al) {
+				// "return check" of a named result stores the variable to itself first: not an assignment
+				if sl, ok := u.Val.(*ssa.UnOp); ok && sl.Op == token.MUL && sl.X == ssa.Value(al) {
+					continue
+				}
 				return nil // whole-struct assignment
 			}
 		}
 	}
+	zero := zeroConst(st.Field(k).Type())
 	switch n {
 	case 0:
-		return zeroConst(st.Field(k).Type())
+		if zero == nil {
+			return nil
+		}
+		return []retAlt{{v: zero}}
 	case 1:
-		return val
+		if store.Block() == r.Block() || store.Block().Dominates(r.Block()) {
+			return []retAlt{{v: store.Val}}
+		}
+		if zero == nil || blockReaches(store.Block(), store.Block()) {
+			return nil
+		}
+		return []retAlt{{v: store.Val, under: store.Block()}, {v: zero, under: store.Block(), neg: true}}
 	}
 	return nil
+}
+
+// retComponent: the single unconditional value of component idx of the Return (see retAlts); nil otherwise.
+func retComponent(r *ssa.Return, idx int) ssa.Value {
+	alts := retAlts(r, idx)
+	if len(alts) == 1 && alts[0].under == nil {
+		return alts[0].v
+	}
+	return nil
+}
+
+// altCond: the condition that selects the alternative, in this context.
+func (fc *FuncCtx) altCond(a retAlt) *bddNode {
+	if a.under == nil {
+		return fc.A.B.True
+	}
+	c := fc.Cond(a.under)
+	if a.neg {
+		return fc.A.B.Not(c)
+	}
+	return c
 }
 
 func zeroConst(t types.Type) ssa.Value {
@@ -1744,27 +1797,79 @@ func errIndex(fn *ssa.Function) int {
 
 // RejectFormula: the condition under which the function returns a non-nil error.
 func (fc *FuncCtx) RejectFormula() *bddNode {
-	i := errIndex(fc.Fn)
-	if i < 0 {
+	i, ok := errComponent(fc.Fn)
+	if !ok {
 		return fc.A.B.False
 	}
-	return fc.ResultFormula(i, fc.NonNil)
+	f := fc.ResultFormula(i, fc.NonNil)
+	if i < 0 {
+		// a result struct handed on from another function of the module (return sp.parseAssertion(...))
+		for _, r := range fc.Returns() {
+			if sub := fc.forwardedStructCtx(r); sub != nil {
+				f = fc.A.B.Or(f, fc.A.B.And(fc.Cond(r.Block()), sub.RejectFormula()))
+			}
+		}
+	}
+	return f
+}
+
+// forwardedStructCtx: the Return hands back, unchanged, the result struct of a call to a module function: the context of
+// that callee bound to the call's arguments.
+func (fc *FuncCtx) forwardedStructCtx(r *ssa.Return) *FuncCtx {
+	if len(r.Results) != 1 || fc.depth >= fc.A.MaxDepth {
+		return nil
+	}
+	c, ok := r.Results[0].(*ssa.Call)
+	if !ok {
+		return nil
+	}
+	sc := c.Call.StaticCallee()
+	if sc == nil || len(sc.Blocks) == 0 || !fc.A.P.InModule(sc) || !types.Identical(sc.Signature.Results().At(0).Type(), fc.Fn.Signature.Results().At(0).Type()) {
+		return nil
+	}
+	return fc.inlineCtx(sc, c.Call.Args, c)
+}
+
+// errComponent: the component of fn's result that carries its error: the last result if it is of type error, or the
+// error-typed field of a single unexported result struct ((value, err) written as a struct); convention of retAlts.
+func errComponent(fn *ssa.Function) (int, bool) {
+	if i := errIndex(fn); i >= 0 {
+		return i, true
+	}
+	res := fn.Signature.Results()
+	if res.Len() != 1 {
+		return 0, false
+	}
+	st := unexportedStruct(res.At(0).Type())
+	if st == nil {
+		return 0, false
+	}
+	for k := 0; k < st.NumFields(); k++ {
+		if types.TypeString(st.Field(k).Type(), nil) == "error" {
+			return -k - 1, true
+		}
+	}
+	return 0, false
 }
 
 // NotAcceptFormula: the condition under which the function does not return a nil error (it returns an
 // error, or leaves by an explicit panic). For functions without panic exits this equals RejectFormula.
 func (fc *FuncCtx) NotAcceptFormula() *bddNode {
-	i := errIndex(fc.Fn)
-	if i < 0 {
+	i, ok := errComponent(fc.Fn)
+	if !ok {
 		return fc.A.B.False
 	}
 	B := fc.A.B
 	succ := B.False
 	for _, r := range fc.Returns() {
-		if i >= len(r.Results) {
-			continue
+		for _, alt := range retAlts(r, i) {
+			succ = B.Or(succ, B.And(B.And(fc.Cond(r.Block()), fc.altCond(alt)), B.Not(fc.NonNil(alt.v))))
 		}
-		succ = B.Or(succ, B.And(fc.Cond(r.Block()), B.Not(fc.NonNil(r.Results[i]))))
+		if i < 0 {
+			if sub := fc.forwardedStructCtx(r); sub != nil {
+				succ = B.Or(succ, B.And(fc.Cond(r.Block()), B.Not(sub.NotAcceptFormula())))
+			}
+		}
 	}
 	return B.Not(succ)
 }
@@ -2038,12 +2143,239 @@ func (fc *FuncCtx) TimeTermOf(v ssa.Value) *TimeTerm {
 		case *ssa.Convert:
 			cur = x.X
 			continue
+		case *ssa.UnOp:
+			if x.Op != token.MUL {
+				break
+			}
+			// a local (or a field of a local struct) that is assigned once: the assigned instant
+			if sv := fieldSingleStore(x); sv != nil {
+				cur = sv
+				continue
+			}
+			if al, ok := x.X.(*ssa.Alloc); ok {
+				if sv := fc.singleStore(al, x); sv != nil {
+					cur = sv
+					continue
+				}
+				// a local filled in by a helper through a pointer parameter (deadline(t, &d)): the helper's term with
+				// its parameters bound to the arguments
+				if call, sc, sv := outParamStore(al); call != nil && fc.depth < fc.A.MaxDepth && fc.A.isPureOutParamFunc(sc) {
+					sub := fc.inlineCtx(sc, call.Call.Args, call)
+					tt := sub.TimeTermOf(sv)
+					for k, v := range tt.Coef {
+						t.Coef[k] += v
+					}
+					t.Const += tt.Const
+					t.Opaque = t.Opaque || tt.Opaque
+					if prm, ok := tt.BaseV.(*ssa.Parameter); ok {
+						found := false
+						for i, q := range sc.Params {
+							if q == prm && i < len(call.Call.Args) {
+								cur = call.Call.Args[i]
+								found = true
+							}
+						}
+						if found {
+							continue
+						}
+					}
+					t.Base = tt.Base
+					t.BaseV = tt.BaseV
+					return t
+				}
+			}
 		}
 		break
 	}
 	t.Base = fc.AP(cur)
 	t.BaseV = cur
 	return t
+}
+
+// fieldSingleStore: ld reads field k of a local struct that is only accessed field by field and whose field k is stored
+// exactly once, in a block that dominates the read: the stored value. nil otherwise.
+func fieldSingleStore(ld *ssa.UnOp) ssa.Value {
+	fa, ok := ld.X.(*ssa.FieldAddr)
+	if !ok {
+		return nil
+	}
+	al, ok := fa.X.(*ssa.Alloc)
+	if !ok || al.Referrers() == nil {
+		return nil
+	}
+	var val ssa.Value
+	n := 0
+	for _, rf := range *al.Referrers() {
+		switch u := rf.(type) {
+		case *ssa.FieldAddr:
+			for _, r2 := range *u.Referrers() {
+				switch w := r2.(type) {
+				case *ssa.Store:
+					if w.Addr != ssa.Value(u) {
+						return nil // the field's address is stored somewhere
+					}
+					if u.Field == fa.Field {
+						if !(w.Block() == ld.Block() && instrIndex(w) < instrIndex(ld) || w.Block() != ld.Block() && w.Block().Dominates(ld.Block())) {
+							return nil
+						}
+						val = w.Val
+						n++
+					}
+				case *ssa.UnOp, *ssa.DebugRef:
+				default:
+					if u.Field == fa.Field {
+						return nil // address of the field escapes (method call with pointer receiver, argument)
+					}
+				}
+			}
+		case *ssa.DebugRef:
+		case *ssa.Store:
+			if u.Addr == ssa.Value(al) {
+				// "return check" of a named result stores the variable to itself first: not an assignment
+				if sl, ok := u.Val.(*ssa.UnOp); ok && sl.Op == token.MUL && sl.X == ssa.Value(al) {
+					continue
+				}
+				return nil // assigned as a whole
+			}
+			return nil // the address of the local is stored
+		case *ssa.UnOp:
+			// whole-struct read (passing it on by value): does not change it
+		default:
+			return nil
+		}
+	}
+	if n == 1 {
+		return val
+	}
+	return nil
+}
+
+func instrIndex(in ssa.Instruction) int {
+	for i, x := range in.Block().Instrs {
+		if x == in {
+			return i
+		}
+	}
+	return -1
+}
+
+// outParamStore: the local al is written only by one call of a module function that receives its address and stores into
+// it exactly once, unconditionally (func deadline(t time.Time, out *time.Time) { *out = ... }): that call, the callee and
+// the value it stores.
+func outParamStore(al *ssa.Alloc) (*ssa.Call, *ssa.Function, ssa.Value) {
+	if al.Referrers() == nil {
+		return nil, nil, nil
+	}
+	var call *ssa.Call
+	argIdx := -1
+	for _, rf := range *al.Referrers() {
+		switch u := rf.(type) {
+		case *ssa.Call:
+			if call != nil {
+				return nil, nil, nil
+			}
+			for i, a := range u.Call.Args {
+				if a == ssa.Value(al) {
+					argIdx = i
+				}
+			}
+			call = u
+		case *ssa.UnOp, *ssa.DebugRef:
+		case *ssa.Store:
+			// the zero-value initialisation of the local (var d T) is a store of a zero constant
+			if u.Addr != ssa.Value(al) {
+				return nil, nil, nil
+			}
+			if c, ok := u.Val.(*ssa.Const); !ok || !(c.Value == nil) {
+				if _, isZero := u.Val.(*ssa.Const); !isZero {
+					return nil, nil, nil
+				}
+			}
+		case *ssa.FieldAddr:
+			// methods on the value (d.Before(now)) read it through field addresses in inlined form; reads only
+			for _, r2 := range *u.Referrers() {
+				if _, isLoad := r2.(*ssa.UnOp); !isLoad {
+					return nil, nil, nil
+				}
+			}
+		default:
+			return nil, nil, nil
+		}
+	}
+	if call == nil || argIdx < 0 {
+		return nil, nil, nil
+	}
+	sc := call.Call.StaticCallee()
+	if sc == nil || len(sc.Blocks) == 0 || argIdx >= len(sc.Params) {
+		return nil, nil, nil
+	}
+	prm := sc.Params[argIdx]
+	var val ssa.Value
+	n := 0
+	for _, rf := range *prm.Referrers() {
+		switch u := rf.(type) {
+		case *ssa.Store:
+			if u.Addr != ssa.Value(prm) {
+				return nil, nil, nil
+			}
+			// unconditional: the store's block dominates every return
+			for _, rt := range returnsOf(sc) {
+				if !(u.Block() == rt.Block() || u.Block().Dominates(rt.Block())) {
+					return nil, nil, nil
+				}
+			}
+			val = u.Val
+			n++
+		case *ssa.DebugRef:
+		default:
+			return nil, nil, nil
+		}
+	}
+	if n != 1 {
+		return nil, nil, nil
+	}
+	return call, sc, val
+}
+
+// isPureOutParamFunc: like isPureModuleFunc, but the function may store through its pointer parameters (out-parameters).
+func (a *Analysis) isPureOutParamFunc(fn *ssa.Function) bool {
+	if !a.P.InModule(fn) || len(fn.Blocks) == 0 || len(fn.FreeVars) > 0 {
+		return false
+	}
+	for _, b := range fn.Blocks {
+		for _, in := range b.Instrs {
+			switch x := in.(type) {
+			case *ssa.Store:
+				if _, isPrm := x.Addr.(*ssa.Parameter); !isPrm && !addrIsLocal(x.Addr) {
+					return false
+				}
+			case *ssa.MapUpdate, *ssa.Send, *ssa.Go, *ssa.Defer, *ssa.Panic, *ssa.RunDefers:
+				return false
+			case ssa.CallInstruction:
+				c := x.Common()
+				if bi, ok := c.Value.(*ssa.Builtin); ok {
+					if bi.Name() == "len" || bi.Name() == "cap" {
+						continue
+					}
+					return false
+				}
+				sc := c.StaticCallee()
+				if sc == nil {
+					return false
+				}
+				if pureFuncs[sc.String()] || allocOnlyFuncs[sc.String()] {
+					continue
+				}
+				if !a.P.InModule(sc) && sc.Signature.Recv() != nil && pureMethodNames[sc.Name()] && !returnsError(sc.Signature) {
+					continue
+				}
+				if !a.isPureModuleFunc(sc) {
+					return false
+				}
+			}
+		}
+	}
+	return true
 }
 
 func (fc *FuncCtx) addDuration(t *TimeTerm, d ssa.Value, k int64) {
